@@ -64,9 +64,15 @@ static vbi_bool pfc_step_cb(vbi_pfc_demux *dx, void *ud, const vbi_pfc_block *b)
   return r;
 }
 
+#ifdef KNOWN_PFC_BLOCK_END_OVERREAD
+#define PFC_SLACK 1	/* defect pfc_block_end_overread: buffer[42] is read; give the packet one more readable (arbitrary)
+			   byte, as inside vbi_sliced.data[56], so that everything else can be decided */
+#else
+#define PFC_SLACK 0
+#endif
 V_HARNESS(h_pfc_step)
 {
-  uint8_t pkt[42]; vbi_bool r; unsigned i;
+  uint8_t pkt[42 + PFC_SLACK]; vbi_bool r; unsigned i;
   vbi_pgno pgno0; unsigned stream0, o_ci, o_packet, o_np, o_bi, o_left, o_app, o_size;
   int mp, mag, ourmag, packet;
   V_INIT();
@@ -76,7 +82,7 @@ V_HARNESS(h_pfc_step)
   c15_blk = PX.block.block;
 #endif
   V_ASSUME(pfc_inv(&PX));
-  in_bytes(pkt, 42);
+  in_bytes(pkt, 42 + PFC_SLACK);
   in_bytes(step_cb_ret, STEP_CBMAX);
   pgno0 = PX.block.pgno; stream0 = PX.block.stream;
   o_ci = PX.ci; o_packet = PX.packet; o_np = PX.n_packets; o_bi = PX.bi; o_left = PX.left;
@@ -185,6 +191,7 @@ static const unsigned b_size[NBMAX] = { SZ0, SZ1, SZ2, SZ3 };
 static const unsigned b_pad[NBMAX] = { PAD0, PAD1, PAD2, PAD3 };
 static uint8_t b_data[NBMAX][SZMAX]; static unsigned b_app[NBMAX];
 static unsigned b_first[NBMAX], b_last[NBMAX];	/* data packet holding the BS / the last block byte */
+static unsigned b_endoff[NBMAX];			/* offset 0..38 of the last block byte in its packet */
 static uint8_t p_stream[CAP]; static unsigned p_bp[NDP]; static uint8_t p_seen[NDP];
 
 static struct { unsigned app, size, stream; vbi_pgno pgno; uint8_t d[SZMAX]; } pcb_log[NBMAX];
@@ -219,7 +226,7 @@ static int pfc_layout(void)
     p_stream[pos++] = ref_ham8(C15_BS);
     for (i = 0; i < 4; i++) p_stream[pos++] = ref_ham8((sh >> (4 * i)) & 15);
     for (i = 0; i < b_size[b]; i++) p_stream[pos++] = b_data[b][i];
-    b_last[b] = (pos - 1) / 39;
+    b_last[b] = (pos - 1) / 39; b_endoff[b] = (pos - 1) % 39;
   }
   while (pos < CAP) p_stream[pos++] = ref_ham8(C15_FILL);
   return 1;
@@ -235,6 +242,11 @@ V_HARNESS(h_pfc_seq)
   V_ASSERT(r && pfc_inv(&PX), "pfc_init_invariant");
   for (b = 0; b < NB; b++) { b_app[b] = (APP0 + 7 * b) & 31; in_bytes(b_data[b], SZMAX); }
   V_ASSUME(pfc_layout());
+#ifdef KNOWN_PFC_BLOCK_END_OVERREAD
+  /* defect (obligation pfc_block_end_overread): a block whose last byte is the last byte of a packet makes
+     _vbi_pfc_demux_decode read buffer[42] */
+  for (b = 0; b < NB; b++) V_ASSUME(!(b_size[b] >= 1 && b_endoff[b] == 38));
+#endif
 #ifdef KNOWN_PFC_LAST_PACKET_LOSS
   /* defect (obligation pfc_last_packet_loss): losing the last packet(s) of a page while a block is in progress */
   if (drop >= 0 && drop % (PPP + 1) == PPP)
